@@ -318,3 +318,29 @@ func (k *Kubelet) WatchPods() {
 		}
 	})
 }
+
+// StartCCM models the cloud controller manager's node lifecycle controller: a Node whose instance
+// no longer exists at the provider is deleted (the termination finalizer, if present, still applies).
+func (k *Kubelet) StartCCM(period time.Duration) {
+	var tick func()
+	tick = func() {
+		st := k.s.store
+		for _, o := range st.List(gvkNode) {
+			n := o.(*corev1.Node)
+			if n.DeletionTimestamp != nil {
+				continue
+			}
+			inst := k.e.CP.Instances[n.Spec.ProviderID]
+			if inst == nil {
+				continue
+			}
+			k.e.CP.settle(inst)
+			if inst.Gone && k.s.Now().Sub(inst.GoneAt) > period {
+				_ = st.Delete(n, DeleteOpts{}, nil)
+				k.s.Stat("env.ccm.node-deleted")
+			}
+		}
+		k.s.AddTimer(actorKubelet, period, "ccm tick", false, tick)
+	}
+	k.s.AddTimer(actorKubelet, period, "ccm tick", false, tick)
+}
